@@ -7,14 +7,14 @@ from .. import oracles as O
 from .c04 import raw
 
 from ..validate import validation_group
-BOUNDS = {'quick': {'identifier_list_len': 1, 'components': 'full u64 <= MAX_SAFE_INTEGER'}, 'thorough': {'identifier_list_len': 4, 'components': 'full u64 <= MAX_SAFE_INTEGER'}}
+BOUNDS = {'quick': {'identifier_list_len': 1, 'components': 'full u64 <= MAX_SAFE_INTEGER'}, 'thorough': {'identifier_list_len': 5, 'components': 'full u64 <= MAX_SAFE_INTEGER'}}
 OUTSIDE = ['VersionDiff Display strings (core::fmt)', 'identifier lists longer than the bound']
 ASSUMPTIONS = ['O-diff is a transcription of node-semver 7.5.4 functions/diff.js (the version pinned by the repository\'s pnpm-lock.yaml)',
                'O-order (SemVer 2.0.0 section 11) decides which version is the higher one']
 
 
 def groups(tier):
-    L = 1 if tier == 'quick' else 4
+    L = 1 if tier == 'quick' else 5
     gs = [{'name': 'diff-L%d' % L, 'fn': diff_group, 'args': {'L': L}}]
     if tier != 'quick':
         gs.append({'name': 'kani-k2', 'fn': kani_group, 'args': {}, 'timeout_s': 1200})
